@@ -375,6 +375,9 @@ theorem loop_halving {o : Opts K} {ti te : K} (hdyn : o.dyn = false) (hε : 0 < 
         | .inr (s', false) => loop (fieldConsts ε) o te (tEpsOf (fieldConsts ε) ti te) rs s' := by
       rw [loop]
       simp only [hne, if_false]
+      rcases body (fieldConsts ε) o te (tEpsOf (fieldConsts ε) ti te) s r with e | ⟨s', b⟩
+      · rfl
+      · cases b <;> rfl
     rw [hunf]
     rcases hres : body (fieldConsts ε) o te (tEpsOf (fieldConsts ε) ti te) s r with e | ⟨s', b⟩
     · rw [hres] at hb
